@@ -297,6 +297,81 @@ def run_arg_scenario(sccache, name, ci=9, swap=False):
         shutil.rmtree(d, ignore_errors=True)
 
 
+# ---- the same source compiled from two working directories (relative include paths mean other directories) ----
+CWD_VARIANTS = ['top_then_sub', 'sub_then_top', 'abs_input', 'iquote']
+
+
+def run_cwd_scenario(sccache, variant, ci=9):
+    """proj/config.h (VALUE 1), proj/sub/config.h (VALUE 2), proj/sub/x.c includes <config.h>.  The file is compiled
+    with `-I.` from proj/ (as sub/x.c) and from proj/sub/ (as x.c) - same absolute input path, same hashed arguments,
+    other headers.  With hash_working_directory (ci has bit 0) the second request must not be answered from the first
+    one's manifest: its object must equal what gcc alone produces in that directory."""
+    d = tempfile.mkdtemp(prefix='vh-c04e-', dir='/dev/shm')
+    srv = None
+    try:
+        proj = os.path.join(d, 'proj')
+        sub = os.path.join(proj, 'sub')
+        os.makedirs(sub)
+        open(os.path.join(proj, 'config.h'), 'w').write('#define VALUE 1\n')
+        open(os.path.join(sub, 'config.h'), 'w').write('#define VALUE 2\n')
+        inc = '#include "config.h"' if variant == 'iquote' else '#include <config.h>'
+        open(os.path.join(sub, 'x.c'), 'w').write(inc + '\nint value = VALUE;\n')
+        flag = ['-iquote', '.'] if variant == 'iquote' else ['-I.']
+        if variant == 'iquote':
+            # "config.h" is first looked up next to x.c: give both directories a different neighbour-independent header
+            os.rename(os.path.join(sub, 'config.h'), os.path.join(sub, 'cfg2.h'))
+            os.makedirs(os.path.join(sub, 'q'))
+            os.makedirs(os.path.join(proj, 'q'))
+            open(os.path.join(proj, 'q', 'config.h'), 'w').write('#define VALUE 1\n')
+            open(os.path.join(sub, 'q', 'config.h'), 'w').write('#define VALUE 2\n')
+            os.unlink(os.path.join(proj, 'config.h'))
+            os.unlink(os.path.join(sub, 'cfg2.h'))
+            flag = ['-iquote', 'q']
+        absx = os.path.join(sub, 'x.c')
+        top = (proj, absx if variant == 'abs_input' else 'sub/x.c')
+        low = (sub, absx if variant == 'abs_input' else 'x.c')
+        first, second = (low, top) if variant == 'sub_then_top' else (top, low)
+        open(os.path.join(d, 'config'), 'w').write(cfg_toml(os.path.join(d, 'cache'), ci))
+        base = {'SCCACHE_CONF': os.path.join(d, 'config'), 'SCCACHE_SERVER_UDS': os.path.join(d, 'sock'),
+                'SCCACHE_IDLE_TIMEOUT': '0', 'SCCACHE_LOG': 'sccache::compiler=debug', 'SCCACHE_NO_DAEMON': '1'}
+        time.sleep(0.05)
+        log = open(os.path.join(d, 'server.log'), 'ab')
+        srv = subprocess.Popen([sccache], env=clean_env(dict(base, SCCACHE_START_SERVER='1')), stdout=log, stderr=log, cwd=proj)
+        for _ in range(200):
+            if os.path.exists(os.path.join(d, 'sock')):
+                break
+            time.sleep(0.02)
+
+        def cc(wrapper, req, out):
+            cwd, src = req
+            e = clean_env(base) if wrapper else clean_env({})
+            return subprocess.run(wrapper + ['gcc'] + flag + ['-c', src, '-o', os.path.join(d, out)], env=e, cwd=cwd,
+                                  stdout=subprocess.PIPE, stderr=subprocess.STDOUT, timeout=120).returncode
+        rcs = [cc([sccache], first, 'first.o'), cc([sccache], first, 'again.o'), cc([sccache], second, 'second.o'),
+               cc([], first, 'ref1.o'), cc([], second, 'ref2.o')]
+        subprocess.run([sccache, '--stop-server'], env=clean_env(base), stdout=subprocess.DEVNULL, stderr=subprocess.DEVNULL, timeout=30)
+        try:
+            srv.wait(timeout=10)
+        except subprocess.TimeoutExpired:
+            srv.kill()
+        srv = None
+        logt = open(os.path.join(d, 'server.log'), 'rb').read().decode('utf-8', 'replace')
+        hits = [l for l in logt.split('\n') if 'Preprocessor cache hit' in l]
+        rd = lambda n: open(os.path.join(d, n), 'rb').read() if os.path.exists(os.path.join(d, n)) else None
+        return dict(variant=variant, rcs=rcs, direct_hits=len(hits),
+                    first_ok=rd('first.o') is not None and rd('first.o') == rd('ref1.o') == rd('again.o'),
+                    second_ok=rd('second.o') is not None and rd('second.o') == rd('ref2.o'),
+                    refs_differ=rd('ref1.o') != rd('ref2.o'))
+    finally:
+        if srv is not None:
+            try:
+                srv.kill()
+                srv.wait()
+            except Exception:
+                pass
+        shutil.rmtree(d, ignore_errors=True)
+
+
 # ---- a header is saved while a compile that includes it is in flight ----
 RACE_VARIANTS = ['after', 'slow_after', 'during', 'before']
 
@@ -402,7 +477,10 @@ def model_case(ci, edit):
 if __name__ == '__main__':
     import sys
     import json
-    if sys.argv[2] == 'race':
+    if sys.argv[2] == 'cwd':
+        for v in CWD_VARIANTS:
+            print(json.dumps(run_cwd_scenario(sys.argv[1], v)))
+    elif sys.argv[2] == 'race':
         for v in RACE_VARIANTS:
             print(json.dumps(run_race(sys.argv[1], v)))
     elif sys.argv[2] == 'args':
